@@ -399,6 +399,9 @@ def distinct_values_mixed_numeric(ka: int, kb: int, kc: int, ta: int, tb: int, t
     pre: all(-2 <= k <= 2 for k in (ka, kb, kc)) and all(0 <= t <= 2 for t in (ta, tb, tc))
     post: _
     """
+    # values and carriers concrete on each path (symbolic ints inside Decimal/float made the engine give up: 'Unexpected unsat')
+    ka, kb, kc = ([k for k in range(-2, 3) if k == x][0] for x in (ka, kb, kc))
+    ta, tb, tc = ([t for t in range(3) if t == x][0] for x in (ta, tb, tc))
     ks = [ka, kb, kc]
     vals = [_carrier(ka, ta), _carrier(kb, tb), _carrier(kc, tc)]
     want = []
